@@ -283,7 +283,7 @@ def r3_store_reg(rule, root=None):
         rule.ok("register map is t.asm().repack_map()")
     else:
         rule.bad("map", "the register map must be `t.asm().repack_map()`", A.where(fn))
-    if "letmem_offset=u32::try_from(N).unwrap();" in t:
+    if "letmem_offset=N.try_into().unwrap();" in t:
         rule.ok("memory slots are rebased by the register budget N")
     else:
         rule.bad("mem_offset", "mem_offset must be the register budget N", A.where(fn))
